@@ -374,6 +374,13 @@ class Interp:
                     if base == fnpath or fnpath.endswith('::' + base) or base.endswith('::' + fnpath):
                         b = bb
                         break
+                    if '<impl at ' in base:
+                        # `mod::<impl at file:l:c: l:c>::method::{closure#k}` is referred to as `mod::Type::method::{closure#k}`
+                        rx = '::'.join(r'[^:]+(<.*>)?' if seg.startswith('<impl at ') else re.escape(seg)
+                                       for seg in re.split(r'::(?![^<]*>)', base))
+                        if re.fullmatch(rx, fnpath) or re.fullmatch(r'(.*::)?' + rx, fnpath):
+                            b = bb
+                            break
         if b is None:
             try:
                 r = self.resolve(fnpath)
@@ -676,6 +683,9 @@ class Interp:
             ty = segs[-2]
             return Enum(ty, enums[ty].index(segs[-1]), segs[-1], vals)
         ty = segs[-1]
+        if not vals and ty in ('Less', 'Equal', 'Greater') and (len(segs) == 1 or segs[-2] == 'Ordering'):
+            # std::cmp::Ordering variants are printed bare (`_0 = Less;`)
+            return Enum('Ordering', ('Less', 'Equal', 'Greater').index(ty), ty)
         if names is not None:
             order = self.src.structs.get(ty)
             if order:
@@ -905,6 +915,15 @@ class Interp:
                     if k == 'drop':
                         v = self.read_place(cells, term[1])
                         if v is not UNINIT and v is not None:
+                            # a `Drop` impl written in the crate (RAII scope guards) runs before the fields are dropped
+                            ty = getattr(v, 'ty', None) if isinstance(v, (Agg, Enum)) else None
+                            if ty is not None and ty in self.src.crate_types:
+                                for (db, ity, itr, _) in self.by_method.get('drop', []):
+                                    if ity == ty and itr == 'Drop':
+                                        cell_, path_ = self.resolve_place(cells, term[1])
+                                        self.run_body(db, [Ref(cell_, path_)])
+                                        v = self.read_place(cells, term[1])
+                                        break
                             self.drop_value(v, bb in cleanup_blocks)
                         bb = term[2]
                         continue
